@@ -87,6 +87,10 @@ def generate(rng, tier):
             alt = rng.choice([nm, nm.replace(b"/", b"//", 1), b"./" + nm, nm.replace(b"/", b"/./", 1)])
             e2 = (alt, dgen.size(rng) if sz is not None else None, [(a, dgen.hexhash(rng)) for a, _ in sums][: rng.randint(0, 3)] or sums[:1])
             cases.append(Case("di.build", [enc(rcs)] + [ent_arg(*e) for e in ents] + [ent_arg(*e2)], meta={"nt": True, "api2": True}))
+            # ... whatever the replacement lacks is gone: a size replaced by none, checksums replaced by none or by fewer,
+            # and the other way round (nothing of the earlier entry may survive the replacement)
+            for sz2, sums2 in ((None, sums[:1]), (dgen.size(rng), []), (None, []), (dgen.size(rng), [(a, dgen.hexhash(rng)) for a, _ in sums] + [(((sums[0][0] if sums else 0) + 1) % 6, dgen.hexhash(rng))])):
+                cases.append(Case("di.build", [enc(rcs)] + [ent_arg(*e) for e in ents] + [ent_arg(alt, sz2, sums2)], meta={"nt": True, "api2": True}))
     # checksum texts given to the API may hold any characters (they are Rust Strings): written as their UTF-8 bytes
     for h in ("\u00e9", "\u212a", "\U0001F600", "\u0085x", "\u00a0", "abc\u3000"):
         cases.append(Case("di.build", ["N", "%s~1~3=%s" % (enc(b"f"), enc(h))], meta={"nt": True, "api2": True}))
